@@ -2,12 +2,15 @@ from check import run_diff_property
 import lib
 
 CFG = dict(
-    streams=[('h2marshal', 3000, 60000), ('h2fp', 400, 6000, 'http2test'), ('e2e', 150, 2500)],
-    oracle_ops={'h2fp', 'e2e'},
+    streams=[('h2marshal', 3000, 60000), ('h2fp', 400, 6000, 'http2test'), ('e2e', 150, 2500), ('rw', 800, 12000)],
+    oracle_ops={'h2fp', 'e2e', 'rwspec05'},
     twophase_ops={'e2e'},
+    ops_filter={'h2marshal', 'h2fp', 'e2e', 'rwspec05'},
     project={'e2e': lib.proj_e2e({'h2', 'st'})},
     http2_ops={'h2fp', 'h2fpm'},
-    rule=("(a) Marshal(n) on generated records (settings incl. unknown ids and 32-bit extremes, WU incl. 0/one digit/2^32-1, "
+    rule=("DELIVERY: the handler in-process with scripted injector sets (default three + custom, shuffled order, value / empty / "
+          "error outcomes): what the backend receives under each injected name against Fp.Spec.Proxy.specValues. "
+          "(a) Marshal(n) on generated records (settings incl. unknown ids and 32-bit extremes, WU incl. 0/one digit/2^32-1, "
           "0..40 priorities with weight 0/255, header names incl. ':', '', ':|') for every limit class "
           "(0, 1, len-1, len, len+1, 2^64-1, 10000); (b) server-level: random ACCEPTED frame scripts (SETTINGS with unknown ids, "
           "ACK, WINDOW_UPDATE on conn/open/closed streams, PRIORITY on any stream, HEADERS with/without priority in any "
